@@ -26,6 +26,24 @@ PROPS = {
         "timeout": 1500,
         "timeout_thorough": 3600,
     },
+    "C29": {
+        "harness": None,
+        "runner": "checklib/run/sched_run.py",
+        "gen": ["sched_reload"],
+        "pre": ["sched_build_ls"],
+        "level": "proof",
+        "level_text": "Kernel-checked theorems about the SchedReload model (inline document handlers in message order against any number of serialised reloads: snapshot (version, open files) under the workspace-manager lock, clear, rebuild from disk + snapshot, then the sync_reloaded_open_files loop): for every notification list, every number of reload requests, every disk content and every interleaving of main-loop and reload steps, at quiescence every open file is analysed with its editor text and every other file with its disk content (absent when not on disk); every schedule is finite (the loop cannot spin). Counter-schedule theorems (decide) for the model without the loop / without the version bump on close. The mechanisms (version bump in every mutator of open_file_texts, loop shape, atomic snapshot, reload prefers open text) are re-extracted from the source on every run; sessions race real reloads (config change) with edit bursts on the real server and observe the analysed texts. Partial: disk fixed during a run, tokio's scheduler not exhibited.",
+        "level_note": "Partial by nature: each lock-protected section is one atomic step and steps interleave arbitrarily; the disk does not change during a run; reloads are serialised (reload_lock) and versions do not wrap; all documents are workspace files. Trusted: Lean kernel, the structural extractor, the stdio client, documentSymbol as observation, the H4 trace for the overlap statistic.",
+        "trusted_base": SCHED_TB,
+        "assumptions": [
+            "document notifications are handled inline in message order (C27)",
+            "reloads are serialised by reload_lock; a skipped (stale generation) request does nothing",
+            "the disk content does not change during the run; open_file_state_version does not wrap",
+        ],
+        "technique": "invariant (consistent / fixed by the current handler / still covered by the reload task) preserved by every step; decreasing measure for termination; decide'd counter-schedules; T-src mechanism flags; oracle sessions",
+        "timeout": 1800,
+        "timeout_thorough": 5400,
+    },
     "C30": {
         "harness": None,
         "runner": "checklib/run/sched_run.py",
